@@ -208,10 +208,10 @@ func (c *Concretizer) patchesFor(d Delta) []interface{} {
 		return []interface{}{jsonPatch(map[string]interface{}{"op": "remove", "path": fmt.Sprintf("/m%d", d.I)})}
 	case "addkey_remmem":
 		return []interface{}{addKey(d.I), jsonPatch(map[string]interface{}{"op": "remove", "path": "/m1"})}
-	case "renmem":
+	case "renmem_addkey":
 		// (the member named  t~1/x : its pointer token is t~01~1x)
-		return []interface{}{jsonPatch(map[string]interface{}{"op": "move", "from": fmt.Sprintf("/m%d", d.I), "path": "/t~01~1x"},
-			map[string]interface{}{"op": "move", "from": "/t~01~1x", "path": fmt.Sprintf("/m%d", d.I)})}
+		return []interface{}{jsonPatch(map[string]interface{}{"op": "move", "from": "/m1", "path": "/t~01~1x"},
+			map[string]interface{}{"op": "move", "from": "/t~01~1x", "path": "/m1"}), addKey(d.I)}
 	case "remmem_replace":
 		return []interface{}{jsonPatch(map[string]interface{}{"op": "remove", "path": "/m1"}),
 			map[string]interface{}{"action": "replace", "document": map[string]interface{}{"publicKeys": []interface{}{c.docKeyJSON(d.I)}}}}
